@@ -169,7 +169,10 @@ def sites(db, only_functions=None, only_objects=None):
     from .rules import only_reached_from
     for f in db.all_instances():
         if only_functions is not None and f['nname'] not in only_functions and not only_reached_from(db, f['nname'], set(only_functions)):
-            continue
+            # a template helper: this instantiation may be reached only from the named functions although another instantiation is not
+            ic = _callers_of_instance(db, f.get('inst')) if f.get('inst') else set()
+            if not ic or not all(c in only_functions for c in ic):
+                continue
         for e in f.events():
             if is_atomic_call(e):
                 if opname(e) == 'atomic':
